@@ -83,10 +83,13 @@ def build_items(tier, seed, wd):
             add(p, ["--fix", "-c", cfgfile], "sweep%d" % k)
     # documented option values no unit test uses (docs/configuring_*.rst tables), on every rule that has the option, with both
     # values of the companion options (harness/configs.py docval_config)
-    dv = [(1, False), (1, True)] if tier == "quick" else [(1, False), (1, True), (2, False), (2, True), (3, False), (3, True)]
-    for k, flip in dv:
+    # (..b: the same configuration with yes / no written as booleans - what an unquoted yes / no in a YAML file is read as)
+    dv = [(1, False, False), (1, True, False), (1, True, True)] if tier == "quick" else [(1, False, False), (1, True, False), (1, True, True), (1, False, True), (2, False, False), (2, True, False), (3, False, False), (3, True, False)]
+    for k, flip, asbool in dv:
         cfg, rules = configs.docval_config(table, k, flip=flip)
-        tag = "docval%d%s" % (k, "f" if flip else "")
+        if asbool:
+            cfg = {"rule": dict((rid, dict((a, {"yes": True, "no": False}.get(v, v) if isinstance(v, str) else v) for a, v in st.items())) for rid, st in cfg["rule"].items())}
+        tag = "docval%d%s%s" % (k, "f" if flip else "", "b" if asbool else "")
         sweeps[tag] = cfg["rule"]
         cfgfile = configs.write_config(cfg, os.path.join(wd, tag + ".json"))
         untested = sorted(r for r in rules if any(a in ("case_control_statements_ends_group", "new_line_after_comma", "align_to", "alignment", "method", "action") for a in cfg["rule"][r]))
